@@ -47,6 +47,7 @@ def run(ctx):
         "R2 (K1a) no undischarged integer-overflow assert in parse-reachable functions",
         "R3 (K7) Token::Float construction dominated by the finite side of is_finite on the same value",
         "R4 (K8) lexical Overflow/Underflow -> nom::Err::Failure",
+        "R5 (K6) lexical ParseFloatOptions must not enable `lossy`",
     ]
     ncasts = 0
     for dp in sorted(local):
@@ -148,6 +149,21 @@ def run(ctx):
                 res.site(key, True, {"site": key, "constructs": sorted(kinds), "verdict": "ok" if ok else "VIOLATION"})
                 if not ok:
                     res.find(key, owner.loc(arm["sp"]), "lexical::Error::%s is mapped to %s instead of nom::Err::Failure: an out-of-range literal can backtrack and be re-lexed as something else" % (v, sorted(kinds) or "nothing"))
+    # R5: the lexical parse options used by the lexer must not enable lossy (fast-path only) float parsing
+    nopt = 0
+    for f in db.fns:
+        for bb, t, c in f.calls():
+            p = callee_path(c) if c else ""
+            if re.match(r"^lexical.*::Parse(Float|Integer)Options(Builder)?::", p):
+                nopt += 1
+                if p.endswith("::lossy") and len(t["args"]) > 1:
+                    v = fn_expr_operand(f, t["args"][1])
+                    key = "K6|lossy-float-option|%s" % f.path
+                    ok = v[0] == "const" and v[1] in (0, "false")
+                    res.site(key, True, {"site": key, "arg": str(v)[:60], "verdict": "ok" if ok else "VIOLATION"})
+                    if not ok:
+                        res.find(key, f.loc(t["sp"]), "lexical float parsing is configured `lossy`: literals with more than 19 significant digits are no longer rounded to nearest", "`1.000000000000000111022302462515654042363166809082031251` lexes to 1.0 instead of 1.0000000000000002")
+    res.count("lexical_parse_option_calls", nopt, floor=3)
     res.count("numeric_casts_seen", ncasts, floor=3)
     res.count("token_float_constructions", nfloat, floor=1)
     res.count("lexical_overflow_arms", nmap, floor=2)
